@@ -19,8 +19,11 @@ ASSUMPTIONS = ['reference model vlib/oracle.py', 'bitsets package behaves as doc
 
 def check_one(case, ctx, deep):
     plain = lib.strip(case)
-    for rep in range(2 if deep else 1):
-        b = Built(case, ctx, plain)
+    for rep in range(3 if deep else 1):
+        if rep != 1:   # rep 1 repeats every query on the SAME objects (answers may not depend on having been asked before)
+            b = Built(case, ctx, plain)
+        else:          # ... nor on what other contexts were created and asked in between
+            lib.interfere(case)
         ref, lat, by, maps = b.ref, b.lattice, b.by_idx, b.maps
         cs = ref.concepts
         k = len(cs)
